@@ -28,6 +28,7 @@ MUTANTS["C18"] = [
     ("typo-logic-in-NE-branch", "annet/rulebook/texts/huawei.rul", "%if not hw.Huawei.NE:", "%if not hw.Huawei.NE:\nfoo bar * %logic=huawei.misc.no_such_function"),
     ("bad-regex-in-quidway-branch", "annet/rulebook/texts/huawei.rul", "    %if hw.Quidway:", "    %if hw.Quidway:\n    foo */(Vlanif[0-9+/"),
     ("find-true-seq-no-recursion-guard", "annet/annlib/netdev/db.py", "            sequences.update(find_true_sequences(hw_model, meta[\"children\"]))", "        sequences.update(find_true_sequences(hw_model, meta[\"children\"]))"),
+    ("hardware-equality-ignores-letter-case", "annet/annlib/netdev/views/hardware.py", "    def __hash__(self):\n        return hash(self.model)\n\n    def __eq__(self, other):\n        return self.model == other.model", "    def __hash__(self):\n        return hash(self.model.lower())\n\n    def __eq__(self, other):\n        return self.model.lower() == other.model.lower()"),
 ]
 
 MUTANTS["C12"] = [
@@ -209,6 +210,7 @@ MUTANTS["C19"] = [
     ("force-skips-unchanged", "annet/api/__init__.py", "                if diff_content or force_reload:", "                if diff_content or (force_reload and old_files.get(file) != file_content_or_json_cfg):"),
     ("safe-filter-ignored", "annet/generators/result.py", "            if not safe or gr.is_safe:", "            if not safe or gr.is_safe or gr.prio > 100:"),
     ("uploads-old-content", "annet/api/__init__.py", "                    upload_files[file] = file_content.encode()", "                    upload_files[file] = (file_content if len(file_content) < 12 else file_content.rstrip(\"\\n\")).encode()"),
+    ("file-diff-empty-for-reordered-lines", "annet/diff.py", "        new_lines = new.splitlines() if new else []\n        context = max(", "        new_lines = new.splitlines() if new else []\n        if sorted(old_lines) == sorted(new_lines):\n            return []\n        context = max("),
 ]
 
 MUTANTS["C10"] = [
